@@ -47,8 +47,7 @@ FUNCS = [
 ]
 # module-level values read from the imported module: (key, module, expression evaluated in it)
 VALUES = [
-    # the date/time/uuid patterns are translated semantically by regexes.py (Gen/Regexes.v, coq/C08/RegexTie.v)
-    ('re_inbase_duration', 'spyne.protocol._inbase', '_duration_re.pattern'),
+    # the date/time/duration/uuid patterns are translated semantically by regexes.py (Gen/Regexes.v, coq/C08/RegexTie.v)
     ('fmt_DateTime_dt_format', 'spyne.model.primitive.datetime', 'repr(DateTime.Attributes.dt_format)'),
     ('fmt_DateTime_out_format', 'spyne.model.primitive.datetime', 'repr(DateTime.Attributes.out_format)'),
     ('fmt_Date_date_format', 'spyne.model.primitive.datetime', 'repr(Date.Attributes.date_format)'),
